@@ -362,6 +362,7 @@ def run(pid, tier, seed, res, seeds_extra=None, only=None):
             if not q["run_debug"] and any(t["debug"].get(x) for x in r["executed"]):
                 res.hit("C13", "monitor", "%s with RUN_DEBUG_NODES off executed debug node(s)" % (qdesc(q),), dict(base, kind="monitor", query=q))
     # hash-seed independence of the priority table and of the execution order
+    greedy_items, greedy_where = [], []
     if pid in ("C07", "C06"):
         seeds = seeds_extra or ([1, 2] if tier == "quick" else [1, 2, 3, 4, 5])
         sub_cases = [c for c, im in zip(cases, impl) if im is not None][: (60 if tier == "quick" else 400)]
@@ -387,6 +388,14 @@ def run(pid, tier, seed, res, seeds_extra=None, only=None):
                                     dict(engine="kgraph", case=case, kind="monitor", seeds=[0, sd]))
                         # ... and that unique order is the documented one: always the ready node of greatest compound priority
                         if sd == seeds[0] and len(set(cps)) == len(cps) and a.get("maxc") == 1 and a["order"] and not str(a["order"][0]).startswith("ERR"):
+                            # Greedy.greedy_order of the declared configuration, evaluated in coqc (GreedyFacts.greedy_is_the_order:
+                            # every complete run of the scheduler model resolves its nodes in this order)
+                            nodes_ = [n_ for n_ in a["cp"] if ">!>" not in n_ and "<!<" not in n_ and not a["debug"].get(n_)]
+                            gids_ = coqrun.Ids(nodes_)
+                            gcfg_ = dict(nodes=nodes_, pre=[], deps={n_: [d_ for d_ in a["deps"].get(n_, []) if d_ in set(nodes_)] for n_ in nodes_},
+                                         seq={}, res={}, cp={n_: a["cp"][n_] for n_ in nodes_}, maxc=1)
+                            greedy_items.append("kgreedy %s" % coqrun.sched_cfg_coq(gcfg_, gids_))
+                            greedy_where.append((case, a, gids_))
                             exp = documented_order(a)
                             if exp is not None and [x for x in exp if x in set(a["order"])] != a["order"]:
                                 for p_ in ("C07", "C06"):
@@ -400,6 +409,24 @@ def run(pid, tier, seed, res, seeds_extra=None, only=None):
                                             dict(engine="kgraph", case=case, kind="monitor", seeds=[0, sd]))
                                 break
         dist["hash_seeds"] = len(seeds) + 1
+        if greedy_items:
+            prefix_ = "kgreedy_%s" % pid
+            coqrun.clean_build(prefix_)
+            gres_, gerr_ = coqrun.run_shards(coqrun.write_shards(prefix_, "Graph Sched Greedy", greedy_items, per_file=100))
+            coqrun.clean_build(prefix_)
+            if gerr_:
+                res.hit(pid, "divergence", "coqc failed on K-graph greedy-order files: " + gerr_[0][2][-300:], dict(kind="coqc-error"))
+            for k_, (case_, a_, gids_) in enumerate(greedy_where):
+                v_ = gres_.get(k_)
+                if v_ is None:
+                    res.hit(pid, "divergence", "no model result (greedy order)", dict(engine="kgraph", case=case_, kind="no-result"))
+                    continue
+                model_order = [gids_.names[x_] for x_ in v_]
+                ran_ = set(a_["order"])
+                if [x_ for x_ in model_order if x_ in ran_] != a_["order"]:
+                    for p_ in ("C07", "C06"):
+                        res.hit(p_, "divergence", "K-graph: max_concurrency=1 without ties executed in the order %s, Greedy.greedy_order of the declared configuration is %s" % (a_["order"], [x_ for x_ in model_order if x_ in ran_]), dict(engine="kgraph", case=case_, kind="divergence", seeds=[0]))
+            dist["greedy_orders"] = len(greedy_items)
     res.distribution["kgraph"] = dict(dist)
     res.engine_info["kgraph"] = dict(cases=len(cases), model_evaluations=len(items))
     if cases:
